@@ -93,6 +93,19 @@ def BlkEq (a b : RBlk) : Prop :=
 
 theorem BlkEq.refl (a : RBlk) : BlkEq a a := ⟨rfl, rfl, rfl, fun _ => ⟨rfl, rfl, rfl, rfl⟩⟩
 
+/-- … and report the same position -/
+theorem BlkEq.txOffset {a b : RBlk} (h : BlkEq a b) : a.txOffset = b.txOffset := by
+  obtain ⟨h1, h2, h3, h4⟩ := h
+  by_cases hd : a.hasData = true
+  · obtain ⟨h5, h6, h7, h8⟩ := h4 hd
+    cases a; cases b
+    simp only at h1 h2 h3 h5 h6 h7 h8
+    subst h1 h2 h3 h5 h6 h7 h8
+    rfl
+  · have hd' : a.hasData = false := by simpa using hd
+    have hb : b.hasData = false := by rw [← h3]; exact hd'
+    simp [RBlk.txOffset, hd', hb, h1, h2]
+
 /-- everything but the caches agrees -/
 structure Sim (C U : Reader σ) : Prop where
   err : C.err = U.err
@@ -1045,7 +1058,7 @@ theorem W.curOffset {o : CacheOps σ} {wf : σ → Prop} {f : File} {C U : Reade
   obtain ⟨c, u, hc, hu, hb⟩ := w.cur
   unfold CachedReader.curOffset
   rw [hc, hu]
-  simp only [RBlk.txOffset, hb.1, hb.2.1]
+  exact hb.txOffset
 
 /-- updating the bookkeeping fields in the same way on both sides keeps the weak relation -/
 theorem W.setFields {o : CacheOps σ} {wf : σ → Prop} {f : File} {C U : Reader σ} (w : W o wf f C U)
@@ -1135,8 +1148,8 @@ theorem byteFin_sim {o : CacheOps σ} {wf : σ → Prop} {f : File} {C U : Reade
     refine ⟨rfl, rfl, ⟨⟨?_, ?_, s.w.ucache, ?_, ?_, s.w.blocked, c, u, ?_, ?_, ?_⟩, s.err, ?_⟩⟩
     · exact (s.w.invC.advance hc ((C.heap c).pos + 1) (((C.heap c).offBlock + 1) % 65536) true).congr _ rfl rfl rfl rfl
     · exact (s.w.invU.advance hu ((U.heap u).pos + 1) (((U.heap u).offBlock + 1) % 65536) true).congr _ rfl rfl rfl rfl
-    · simp only [RBlk.txOffset, hb.1, hb.2.1]
-    · simp only [hb.1, hb.2.1]
+    · exact hb.txOffset
+    · exact (hb.advance hd 1 true true).txOffset
     · simp [Reader.setB, hc]
     · simp [Reader.setB, hu]
     · simp only [setB_same]
